@@ -47,6 +47,11 @@ CLAIMED = {
         "Unbounded theorems: for every rational multiple of pi (any shift size) and all six trigonometric constructors, the rewritten result has the value of the function at the argument (table exit = f(k*pi/12), otherwise sign*(f or cofunction)(reduced argument)), recursing through trig_simplify at any depth; the 24 sin_table entries and the 14 inverse_tct entries are correct, 8 of 12 inverse_cst entries are correct (2 refuted = known findings); floor/ceiling/truncate/sign/abs on rationals and Q(i), max/min folding, kronecker_delta/levi_civita, gamma at integers and half-integers, primepi below 2^32. All other special-value rules (zeta, polygamma, beta, erf, lambertw, hyperbolics) and complex points are covered by a numeric oracle only (testing, labelled).",
         "Trusted: Coq kernel; Reals axioms for the trigonometric theorems; the table translator; extraction; known findings (listed): inverse_cst C4/C5 entries (pinned by the repository's tests), acot range convention, atan2 of symbolic arguments, floor of exact Complex, polygamma at non-positive non-integers.",
         "7 (C08)"),
+    "C10": (
+        "Rocq proof (Coquelicot is_derive) over a rule table REGENERATED from derivative.cpp on every run (translators/tr_diffrules.py) and a model of DiffVisitor that returns construction terms + correspondence: the driver evaluates the model's term with the library's own constructors and compares with diff(e, x)",
+        "Theorems: each of the 25 generated one-argument rules is the derivative of its real function on the stated domain; diff_sound: for every tree of the real fragment (rationals, pi, E, symbols, Add, Mul, Pow with any exponent, the 25 classes, atan2) and every point where it is defined, the value is differentiable in x and the returned term denotes the derivative; diff is exactly 0 when x does not occur; cached = uncached (guard: eq sub-trees identical); the xi dummy of the chain rule is fresh; shape of the chain rule for undefined functions; diff_upoly on integer/rational polynomials. Complex points, erf/gamma/zeta/polygamma/lambertw/beta rules and Derivative/Subs semantics: translator tie + numeric oracle (dual numbers over Q, central differences) only.",
+        "Trusted: Coq kernel; the translator and fingerprints of hand-transcribed bodies; Reals axioms + classic (Coquelicot); known findings (listed): ACosh rule branch (fix needs a test edit), derivatives of singular constants, Subs recursion after a nan derivative.",
+        "7 (C10)"),
     "C12": (
         "Rocq proof over rule tables REGENERATED from eval_double.cpp on every run (translators/tr_evalrules.py): per-class formulas over abstract libm symbols, interpreted over the reals (Coquelicot/Rtrigo) + bit-exact correspondence of eval_double / single dispatch / lambda against a Flocq binary64 model",
         "Theorems: for 35 node classes the formula that the visitor evaluator AND the single-dispatch table compute, interpreted with ideal real functions, is the mathematical function of the class (inverse functions by principal range + inverted function; E**x = exp x); the single-dispatch table equals the visitor table on its 44 classes (computed) and the two evaluators return the same result on every tree over those classes in any float algebra (axiom-free). What the theorems do not reach: the rounding error of libm and of the composition - covered by a long-double reference oracle with conditioning estimate (testing, labelled).",
@@ -162,6 +167,16 @@ CLAIMED = {
         "Unbounded theorems (every history, every limit < 2^31, every sieve size 1..2^15 KB): no array access leaves its array, every loop terminates, generate_primes returns exactly the primes up to the limit in increasing order, iterators return the prime sequence without gaps or repeats. The model is tied to the code by running generated histories on the extracted model and on the library rebuilt from /repo and comparing every output.",
         "Trusted: Coq kernel; extraction (ExtrOcamlBasic); the hand transcription of prime_sieve.cpp into coq/C33/SieveModel.v, validated on every run by correspondence only (differential testing, not proof); floor(sqrt(double)) modelled as N.sqrt; valarray slice semantics; unbounded iterators (limit 0) are outside the theorems (Bertrand's postulate only proved below 2^31).",
         "7 (C33)"),
+    "C34": (
+        "Rocq proof (axiom-free, values in Q(i) plus oo/-oo/zoo/nan) over an executable model of the Assumptions constructor and every visitor of test_visitors.cpp + character-exact correspondence of tribool answers",
+        "Theorems (all statement sets, all satisfying valuations): the Assumptions constructor records only true facts; is_zero/nonzero, negative, nonnegative, nonpositive, positive, integer, is_complex = false, finite/infinite, even/odd are sound in both directions on the fragment with a value (exact numbers, symbols, Add, Mul, integer and half-integer Pow, abs, sign, conjugate, floor, ceiling, max, min); is_real/is_complex = true guarded by 'value is not zoo' (poles refuted); is_rational partial; algebraic/transcendental/polynomial by correspondence only. Oracle: the library's own subs at sampled Gaussian-rational valuations satisfying the statements.",
+        "Trusted: Coq kernel; extraction; hand transcription validated by correspondence; known findings (listed): is_real(I*x) = false at x = 0 (pinned by the repository's test), poles 1/x reported real, is_irrational(0.5).",
+        "7 (C34)"),
+    "C35": (
+        "Rocq proof of each refine rule's value preservation given the query answers (same model and semantics as C34) + correspondence of rule decisions with results built by the library's constructors",
+        "Theorems: the Abs, Sign, Floor, Ceiling, Conjugate, Max and Min rules of RefineVisitor preserve the value at every valuation satisfying the assumptions; the Pow-of-Pow rule partial (abs branch for half-integer outer exponents with even inner exponent, positive branch for even inner exponent); Log and simplify_pow have values outside Q(i): tie and numeric oracle only. Whole-expression refine soundness is not proved (constructors not modelled here).",
+        "Trusted: as C34; known findings (listed): pow() collapses (x**-1)**q to x**(-q).",
+        "7 (C35)"),
     "C36": (
         "Rocq proof at rule level (any field for numer/denom; C = RxR with Coq's real functions for rewrite/conjugate/real_imag rules) over models of NumerDenomVisitor, RealImagVisitor, the RewriteAs* rule tables, trig_to_sqrt and conjugate + exact-tree / recipe correspondence + numeric oracle",
         "Theorems: as_numer_denom's rules give n/d = e given arithmetic soundness of the constructors on defined operands (explicit premise record; integer-power laws proved in every field; non-integer powers refuted = known finding); all 22 rewrite_as_exp/sin/cos rules, the 12 conjugate rules, the 24 trig_to_sqrt rules (principal real domains) and the real/imaginary-part identities for sin, cos, sinh, cosh, tan, cot, tanh, coth preserve value; pow_number's binary loop returns z^n for n < 2^64. The visitor traversals around the rules and values at general complex points are tied by correspondence and a numeric oracle at sampled points (testing, labelled).",
